@@ -19,14 +19,26 @@ import (
 type Edge struct {
 	From *ssa.BasicBlock
 	Idx  int
+	// Via restricts the edge to the paths that entered the named join blocks
+	// through the named predecessors ("b12#1;b15#0"); empty = every path. The
+	// success edge of a call whose error reaches its nil test through a phi
+	// (result temporaries of an inlined helper, an error variable assigned on
+	// several branches) is such a contextual edge.
+	Via string
 }
 
 // To is the edge's target block.
 func (e Edge) To() *ssa.BasicBlock { return e.From.Succs[e.Idx] }
 
 func (e Edge) String() string {
+	if e.Via != "" {
+		return fmt.Sprintf("b%d->b%d[%s]", e.From.Index, e.To().Index, e.Via)
+	}
 	return fmt.Sprintf("b%d->b%d", e.From.Index, e.To().Index)
 }
+
+// Plain is the edge without its path context.
+func (e Edge) Plain() Edge { return Edge{From: e.From, Idx: e.Idx} }
 
 // CalleeName is the type-resolved name of what a call instruction invokes:
 // "(pkg.Iface).Method" for interface invokes, the SSA function's full name for
@@ -181,7 +193,7 @@ func CondEdges(v ssa.Value) (tr, fa []Edge) {
 		for _, r := range *refs {
 			switch r := r.(type) {
 			case *ssa.If:
-				t, f := Edge{r.Block(), 0}, Edge{r.Block(), 1}
+				t, f := Edge{From: r.Block(), Idx: 0}, Edge{From: r.Block(), Idx: 1}
 				if neg {
 					t, f = f, t
 				}
@@ -316,13 +328,34 @@ func ErrEvents(c ssa.CallInstruction) *ErrEv {
 		ev.Dropped = true
 		return ev
 	}
-	seen := map[ssa.Value]bool{}
+	type fkey struct {
+		v   ssa.Value
+		via string
+	}
+	seen := map[fkey]bool{}
+	withVia := func(es []Edge, via string) []Edge {
+		if via == "" {
+			return es
+		}
+		out := make([]Edge, len(es))
+		for i, x := range es {
+			x.Via = via
+			out[i] = x
+		}
+		return out
+	}
+	var followVia func(v ssa.Value, filtered bool, via string)
 	var follow func(v ssa.Value, filtered bool)
-	follow = func(v ssa.Value, filtered bool) {
-		if seen[v] {
+	via := ""
+	follow = func(v ssa.Value, filtered bool) { followVia(v, filtered, via) }
+	followVia = func(v ssa.Value, filtered bool, curVia string) {
+		if seen[fkey{v, curVia}] {
 			return
 		}
-		seen[v] = true
+		seen[fkey{v, curVia}] = true
+		saved := via
+		via = curVia
+		defer func() { via = saved }()
 		refs := v.Referrers()
 		if refs == nil || len(*refs) == 0 {
 			return
@@ -335,6 +368,7 @@ func ErrEvents(c ssa.CallInstruction) *ErrEv {
 					if r.Op == token.EQL {
 						t, f = f, t
 					}
+					t, f = withVia(t, via), withVia(f, via)
 					ev.Fail = append(ev.Fail, t...)
 					ev.OK = append(ev.OK, f...)
 					if !filtered {
@@ -347,7 +381,23 @@ func ErrEvents(c ssa.CallInstruction) *ErrEv {
 					}
 				}
 			case *ssa.Phi:
-				follow(r, filtered)
+				// the nil test downstream speaks about this call only on the paths
+				// that enter the phi's block through the edge carrying v
+				fi := infoOf(r.Parent())
+				any := false
+				for i, e := range r.Edges {
+					if e == v && fi.ctxJoin[r.Block()] {
+						any = true
+						nv := ViaOf(r.Block(), i)
+						if via != "" {
+							nv = via + ";" + nv
+						}
+						followVia(r, filtered, nv)
+					}
+				}
+				if !any {
+					follow(r, filtered)
+				}
 			case *ssa.Return:
 				ev.Returned = true
 			case *ssa.Store:
@@ -473,30 +523,13 @@ func Before(a, b ssa.Instruction) bool {
 // ReachBlocks returns the blocks reachable from the given start edges/blocks
 // without crossing an edge in avoid. parent records a BFS tree for witnesses.
 func ReachBlocks(starts []*ssa.BasicBlock, avoid map[Edge]bool) (map[*ssa.BasicBlock]bool, map[*ssa.BasicBlock]*ssa.BasicBlock) {
-	seen := map[*ssa.BasicBlock]bool{}
-	parent := map[*ssa.BasicBlock]*ssa.BasicBlock{}
-	var q []*ssa.BasicBlock
-	for _, s := range starts {
-		if !seen[s] {
-			seen[s] = true
-			q = append(q, s)
-		}
-	}
-	for len(q) > 0 {
-		b := q[0]
-		q = q[1:]
-		for i, s := range b.Succs {
-			if avoid[Edge{b, i}] {
-				continue
-			}
-			if !seen[s] {
-				seen[s] = true
-				parent[s] = b
-				q = append(q, s)
-			}
-		}
-	}
-	return seen, parent
+	return reachSens(starts, nil, avoid)
+}
+
+// ReachFromEdges is ReachBlocks started on edges (the path context of a start
+// edge, and what taking it implies, is known to the search).
+func ReachFromEdges(starts []Edge, avoid map[Edge]bool) (map[*ssa.BasicBlock]bool, map[*ssa.BasicBlock]*ssa.BasicBlock) {
+	return reachSens(nil, starts, avoid)
 }
 
 // Posf renders positions; set by the loader's user.
@@ -546,13 +579,7 @@ func ReachableFromEdges(starts []Edge, target ssa.Instruction, avoid []Edge, pos
 	for _, g := range avoid {
 		av[g] = true
 	}
-	var sb []*ssa.BasicBlock
-	for _, e := range starts {
-		if !av[e] {
-			sb = append(sb, e.To())
-		}
-	}
-	seen, parent := ReachBlocks(sb, av)
+	seen, parent := ReachFromEdges(starts, av)
 	if seen[target.Block()] {
 		return true, witness(parent, target.Block(), posf)
 	}
@@ -569,13 +596,11 @@ func InstrReaches(a, b ssa.Instruction, avoid []Edge) bool {
 	for _, g := range avoid {
 		av[g] = true
 	}
-	var sb []*ssa.BasicBlock
-	for i, s := range a.Block().Succs {
-		if !av[Edge{a.Block(), i}] {
-			sb = append(sb, s)
-		}
+	var se []Edge
+	for i := range a.Block().Succs {
+		se = append(se, Edge{From: a.Block(), Idx: i})
 	}
-	seen, _ := ReachBlocks(sb, av)
+	seen, _ := ReachFromEdges(se, av)
 	return seen[b.Block()]
 }
 
@@ -592,11 +617,7 @@ func ReturnsReachable(starts []Edge, avoid []Edge) []*ssa.Return {
 	for _, g := range avoid {
 		av[g] = true
 	}
-	var sb []*ssa.BasicBlock
-	for _, e := range starts {
-		sb = append(sb, e.To())
-	}
-	seen, _ := ReachBlocks(sb, av)
+	seen, _ := ReachFromEdges(starts, av)
 	var out []*ssa.Return
 	for b := range seen {
 		if len(b.Instrs) > 0 {
@@ -665,7 +686,7 @@ func ExitEdgesOf(body map[*ssa.BasicBlock]bool) []Edge {
 	for b := range body {
 		for i, s := range b.Succs {
 			if !body[s] {
-				out = append(out, Edge{b, i})
+				out = append(out, Edge{From: b, Idx: i})
 			}
 		}
 	}
@@ -781,7 +802,7 @@ func FlagPhis(fn *ssa.Function, onTrue []Edge) []*ssa.Phi {
 			for _, p := range b.Preds {
 				for i, s := range p.Succs {
 					if s == b {
-						avoid[Edge{p, i}] = true
+						avoid[Edge{From: p, Idx: i}] = true
 					}
 				}
 			}
@@ -856,36 +877,20 @@ func LoopBypass(body map[*ssa.BasicBlock]bool, through map[*ssa.BasicBlock]bool,
 	for _, e := range allowed {
 		av[e] = true
 	}
-	seen := map[*ssa.BasicBlock]bool{}
-	parent := map[*ssa.BasicBlock]*ssa.BasicBlock{}
-	var q []*ssa.BasicBlock
+	var starts []Edge
 	for i, s := range h.Succs {
-		if body[s] && s != h && !av[Edge{h, i}] {
-			seen[s] = true
-			parent[s] = h
-			q = append(q, s)
+		if body[s] && s != h {
+			starts = append(starts, Edge{From: h, Idx: i})
 		}
 	}
-	for len(q) > 0 {
-		b := q[0]
-		q = q[1:]
-		if through[b] {
-			continue
-		}
-		for i, s := range b.Succs {
-			if av[Edge{b, i}] || !body[s] {
-				continue
-			}
-			if s == h {
-				w := witness(parent, b, posf)
-				return true, append(w, "-> back to loop header b"+fmt.Sprint(h.Index))
-			}
-			if !seen[s] {
-				seen[s] = true
-				parent[s] = b
-				q = append(q, s)
-			}
-		}
+	stop := map[*ssa.BasicBlock]bool{h: true}
+	for b := range through {
+		stop[b] = true
+	}
+	seen, parent := reachOpts(nil, starts, av, body, stop)
+	if seen[h] {
+		w := witness(parent, h, posf)
+		return true, append(w, "-> back to loop header b"+fmt.Sprint(h.Index))
 	}
 	return false, nil
 }
@@ -896,7 +901,7 @@ func BackEdges(fn *ssa.Function) []Edge {
 	for _, t := range fn.Blocks {
 		for i, h := range t.Succs {
 			if h.Dominates(t) {
-				out = append(out, Edge{t, i})
+				out = append(out, Edge{From: t, Idx: i})
 			}
 		}
 	}
@@ -924,36 +929,9 @@ func ReachesAvoidingBlocks(starts []Edge, target *ssa.BasicBlock, through map[*s
 	for _, e := range avoid {
 		av[e] = true
 	}
-	seen := map[*ssa.BasicBlock]bool{}
-	parent := map[*ssa.BasicBlock]*ssa.BasicBlock{}
-	var q []*ssa.BasicBlock
-	for _, e := range starts {
-		if av[e] {
-			continue
-		}
-		s := e.To()
-		if !seen[s] {
-			seen[s] = true
-			q = append(q, s)
-		}
-	}
-	for len(q) > 0 {
-		b := q[0]
-		q = q[1:]
-		if b == target {
-			return true, witness(parent, b, posf)
-		}
-		if through[b] {
-			continue
-		}
-		for i, s := range b.Succs {
-			if av[Edge{b, i}] || seen[s] {
-				continue
-			}
-			seen[s] = true
-			parent[s] = b
-			q = append(q, s)
-		}
+	seen, parent := reachOpts(nil, starts, av, nil, through)
+	if seen[target] {
+		return true, witness(parent, target, posf)
 	}
 	return false, nil
 }
@@ -1204,7 +1182,7 @@ func FlagPhisConst(fn *ssa.Function, on []Edge, val bool) []*ssa.Phi {
 			for _, p := range b.Preds {
 				for i, s := range p.Succs {
 					if s == b {
-						avoid[Edge{p, i}] = true
+						avoid[Edge{From: p, Idx: i}] = true
 					}
 				}
 			}
